@@ -37,6 +37,7 @@ EXPLANATION = (
     '(the behaviour itself) is not decided.'
     ' (R13) in the pattern matcher every non-`false` verdict and every descent into the sub-patterns of a tagged pattern (a Pattern variant whose payload struct has an identifying field, '
     'PatternTupleStruct.name - read off the ADT) lies behind a test that depends on that field and on the matched value; that the test is the right comparison is not decided.'
+    ' (R14) scope forwarding: every evaluator that receives the local environment (the variables bound by an arm pattern) hands it to every sub-evaluator it calls; none passes the literal None in the environment position (a guard or body sub-expression would be evaluated against the globals).'
 )
 
 ARMS_RX = re.compile(r"\.(match_)?arms\b")
@@ -323,6 +324,11 @@ def run(F, rep, tier):
     crate = "mech_interpreter.lib"
     items = F.syn(crate)
     fns = Q.Fns(items)
+    # R14: pattern variables stay visible in guards and bodies - every evaluator that receives the local environment forwards it (rules/scope_forward.py)
+    from rules import scope_forward
+    _nc, _ns = scope_forward.run(F, rep, "C16-R14")
+    rep.floor("C16-R14", "evaluators that receive the local environment", _nc, 25)
+    rep.floor("C16-R14", "sub-evaluator calls with an environment position", _ns, 80)
     rep.rule("C16-R1", "arms tried in forward order; the first success returns")
     rep.rule("C16-R2", "pattern environment is fresh per arm and shared by matcher, guard and body")
     rep.rule("C16-R3", "arity test dominates arm execution; no matching arm is an Err")
